@@ -30,6 +30,28 @@ func (p *Prog) origin(v ssa.Value) ssa.Value {
 			}
 			v = mc.Bindings[idx]
 			continue
+		case *ssa.Parameter:
+			// parameter of a function literal that is applied (called, started with go, deferred) at exactly one place:
+			// "go func(r *bufio.Reader) {...}(reader)" denotes reader
+			fn := x.Parent()
+			if fn == nil || fn.Parent() == nil {
+				return v
+			}
+			cc := p.literalCallSite(fn)
+			if cc == nil {
+				return v
+			}
+			idx := -1
+			for i, prm := range fn.Params {
+				if prm == x {
+					idx = i
+				}
+			}
+			if idx < 0 || idx >= len(cc.Args) {
+				return v
+			}
+			v = cc.Args[idx]
+			continue
 		case *ssa.UnOp:
 			if x.Op == token.MUL {
 				// load of a captured / local variable cell with exactly one store
@@ -623,4 +645,44 @@ func (p *Prog) spawnerClosesOnStop(b *ssa.Function, S map[string]bool) bool {
 		}
 	}
 	return true
+}
+
+// literalCallSite returns the unique call (plain, go or defer) whose callee is the function literal fn (directly or through
+// its MakeClosure); nil if there is none or more than one, or if the literal is used in any other way.
+func (p *Prog) literalCallSite(fn *ssa.Function) *ssa.CallCommon {
+	parent := fn.Parent()
+	if parent == nil {
+		return nil
+	}
+	var found *ssa.CallCommon
+	n, other := 0, 0
+	eachInstr(parent, func(in ssa.Instruction) {
+		if c := callOf(in); c != nil {
+			switch v := c.Value.(type) {
+			case *ssa.Function:
+				if v == fn {
+					found = c
+					n++
+				}
+			case *ssa.MakeClosure:
+				if v.Fn == fn {
+					found = c
+					n++
+				}
+			}
+		}
+		if mc, ok := in.(*ssa.MakeClosure); ok && mc.Fn == fn {
+			for _, r := range refs(mc) {
+				if c := callOf(r); c == nil || c.Value != ssa.Value(mc) {
+					if _, dbg := r.(*ssa.DebugRef); !dbg {
+						other++
+					}
+				}
+			}
+		}
+	})
+	if n == 1 && other == 0 {
+		return found
+	}
+	return nil
 }
